@@ -30,6 +30,7 @@ def plan(tier):
     for k in (range(0, 5) if tier == "quick" else range(0, 8)):
         pl.units.append(U("G.literal-body.%d-lines" % k, "contracts.listing", "h_getscript", (k,),
                           setup=("contracts.listing", "setup"), native_ok=True, sample_models=True))
+    pl.static = [lambda: common.shape_selftest_obs(PID)]
     pl.bounded = [bounded_get, bounded_list]
     pl.functions = [("sievelib.managesieve", "Client.getscript"), ("sievelib.managesieve", "Client.listscripts")]
     pl.trusted = [common.TRUSTED_UTF8, "bytes.splitlines and str.join as uninterpreted functions (congruence only)",
